@@ -35,6 +35,10 @@ type Conn struct {
 	// ErrWithData: the Read that hands out the last queued bytes also returns the pending EOF /
 	// read error (n > 0 together with err != nil, as io.Reader permits and crypto/tls does)
 	ErrWithData bool
+	// WriteBlocked: the peer has stopped reading - a Write blocks (after the scheduling point at its
+	// start) until Unblock is called or the connection is closed
+	WriteBlocked bool
+	InWrite      int // number of Write calls currently inside the transport
 	rdl, wdl   time.Time // read / write deadline on the virtual clock (zero: none)
 	NDeadlines int       // number of Set*Deadline calls
 	RerrOnce bool // the pending read error is reported by one Read only (a transient condition such as an expired read deadline)
@@ -59,6 +63,9 @@ func (c *Conn) Deliver(b []byte) {
 	}
 	vs.Touch(c, "deliver")
 }
+// Unblock lets blocked writes proceed (the peer reads again).
+func (c *Conn) Unblock() { c.WriteBlocked = false; vs.Touch(c, "unblock") }
+
 func (c *Conn) PeerEOF()         { c.eof = true; vs.Touch(c, "eof") }
 func (c *Conn) PeerErr(e error)  { c.rerr = e; vs.Touch(c, "rerr") }
 
@@ -125,6 +132,18 @@ func (c *Conn) Write(p []byte) (int, error) {
 	}
 	if expired(c.wdl) {
 		return 0, TimeoutErr{}
+	}
+	if c.WriteBlocked {
+		c.InWrite++
+		vs.Touch(c, "write-blocked")
+		vs.BlockObj("net.write.blocked:"+c.Name, c, func() bool { return !c.WriteBlocked || c.Closed || expired(c.wdl) })
+		c.InWrite--
+		if c.Closed {
+			return 0, ErrClosed
+		}
+		if c.WriteBlocked {
+			return 0, TimeoutErr{}
+		}
 	}
 	if c.nwrites < len(c.WriteDelays) && c.WriteDelays[c.nwrites] > 0 {
 		d := c.WriteDelays[c.nwrites]
